@@ -46,7 +46,8 @@ odesys, extra = get_odesys(rsys)
 names = list(rsys.substances)
 yv = [float(y[n]) for n in names]
 fv = [float(f[n]) for n in names]
-odesys.f_cb = lambda *a, **k: fv      # stub stated in the obligation: the derivative vector is arbitrary
+import numpy as np
+odesys.f_cb = lambda *a, **k: np.array(fv)      # stub stated in the obligation: arbitrary derivative vector (numpy array, as the real callback returns)
 h = extra["max_euler_step_cb"](0, dict(zip(names, yv)))
 ub = rsys.upper_conc_bounds(yv)
 bad = []
